@@ -1547,3 +1547,40 @@ func lemmaSliceConcat(seq Sequence, c int) Sequence {
 //@   requires is(loc, Point) || is(loc, Between) || is(loc, Ambiguous) || is(loc, Complemented)
 //@   ensures out == loc
 //@   assigns nothing
+
+// ---------------------------------------------------------------------------
+// locator.go (C08): every locator hands out a list it has just built - resizeLocator rewrites the
+// list it gets from the inner locator in place, so a shared list would make a second
+// evaluation of the same locator start from the resized regions of the first.
+//@ func (l Location) Region() (out Region)
+//@   trusted interface contract: every implementation only reads the receiver and builds its result (leaf kinds return a Segment value, composites a freshly made Regions list)
+//@   ensures !isnil(out)
+//@   assigns nothing
+
+//@ func allLocator(seq Sequence) (rr Regions)
+//@   prop C08 C15 C11
+//@   requires !isnil(seq) && (forall k in 0..len(featsOf(seq)): !isnil(featsOf(seq)[k].Loc))
+//@   ensures fresh(rr) && len(rr) == len(featsOf(seq))
+//@   assigns nothing
+//@   loop 1: invariant fresh(rr) && len(rr) == len(ff)
+//@   loop 1: decreases len(ff) - i
+
+//@ func locationLocator$1(seq Sequence) (rr Regions)
+//@   prop C08 C15 C11
+//@   requires !isnil(loc)
+//@   ensures fresh(rr) && len(rr) == 1
+//@   assigns nothing
+
+//@ func relativeLocator$1(seq Sequence) (rr Regions)
+//@   prop C08 C15 C11
+//@   requires !isnil(seq) && !isnil(mod)
+//@   ensures fresh(rr) && len(rr) == 1 && is(rr[0], Segment)
+//@   assigns nothing
+
+//@ func filterLocator$1(seq Sequence) (rr Regions)
+//@   prop C08 C15 C11
+//@   requires !isnil(seq) && (forall k in 0..len(featsOf(seq)): !isnil(featsOf(seq)[k].Loc))
+//@   ensures fresh(rr) && len(rr) <= len(featsOf(seq))
+//@   assigns nothing
+//@   loop 1: invariant fresh(rr) && len(rr) == len(ff)
+//@   loop 1: decreases len(ff) - i
